@@ -282,6 +282,10 @@ def run(ck, rng, out):
             _guard(ck, lambda: _jc69(ck, drv, rng), "jc69")
             for resc in (False, True):
                 _guard(ck, lambda: _prune(ck, drv, rng, resc), "prune")
+        # C08 exponential / piecewise-linear / relaxed skygrid, C20 time-aware GMRF and gamma-integrated GMRF
+        import c12_corr_coal
+
+        c12_corr_coal.run(ck, drv, rng)
     finally:
         drv.close()
 
